@@ -62,6 +62,95 @@ Definition has_owner_guard (m : msg_type) : bool :=
 
 Definition c12_owner_check : bool := forallb has_owner_guard position_msgs.
 
+(* ---- WHICH record is owner-compared, and how was it fetched?  (Gen/GuardTable.v owner_cmps)
+   An owner comparison protects the position a message names only if the compared record IS that
+   position's record (or, for a borrow - which has no owner field - the lend position it sits on):
+   the chain of lookups from the compared record back to the message must be keyed, link by link,
+   by an id of the kind the lookup expects, the first link must fetch a record of the kind whose
+   owner field is compared, and the chain must start at a position-id field of the message.
+   `GetLend(ctx, borrowPos.ID)` - a lend looked up by a BORROW id - fails the check. *)
+Fixpoint assoc {A : Type} (k : string) (l : list (string * A)) : option A :=
+  match l with
+  | [] => None
+  | (k', v) :: r => if String.eqb k k' then Some v else assoc k r
+  end.
+
+(* reviewed: owner field -> kind of position the record is *)
+Definition owner_fields : list (string * string) :=
+  [("Vault.Owner", "vault"); ("Locker.Depositor", "locker"); ("LendAsset.Owner", "lend"); ("Order.Orderer", "order")].
+(* reviewed: lookup -> (kind of id it is keyed by, type of the record it returns) *)
+Definition lookup_info : list (string * (string * string)) :=
+  [("GetVault", ("vault", "Vault")); ("GetLocker", ("locker", "Locker")); ("GetLend", ("lend", "LendAsset"));
+   ("GetBorrow", ("borrow", "BorrowAsset")); ("GetOrder", ("order", "Order"))].
+(* reviewed: the kind of id each key expression carries (message fields; id / link fields of the records) *)
+Definition key_kind : list (string * string) :=
+  [("msg.UserVaultId", "vault"); ("msg.LockerId", "locker"); ("msg.LendId", "lend"); ("msg.BorrowId", "borrow"); ("msg.OrderId", "order");
+   ("BorrowAsset.LendingID", "lend"); ("BorrowAsset.ID", "borrow"); ("LendAsset.ID", "lend");
+   ("Vault.Id", "vault"); ("Locker.LockerId", "locker"); ("Order.Id", "order")].
+
+Definition key_has_kind (k key : string) : bool :=
+  match assoc key key_kind with Some k' => String.eqb k' k | None => false end.
+Definition key_no_other_kind (k key : string) : bool :=
+  match assoc key key_kind with Some k' => String.eqb k' k | None => true end.
+
+(* [chain_ok ids c]: every link is keyed by exactly one id of its own kind and by no id of another
+   kind; a "<RecordType>.<Field>" key is a field of the record the NEXT link fetches; the last link
+   is keyed by a field of the message that is one of [ids] *)
+Fixpoint chain_ok (ids : list string) (c : list (string * list string)) : bool :=
+  match c with
+  | [] => false
+  | (lk, keys) :: rest =>
+    match assoc lk lookup_info with
+    | None => false
+    | Some (k, _) =>
+      forallb (key_no_other_kind k) keys &&
+      match filter (key_has_kind k) keys with
+      | [key] =>
+        if String.prefix "msg." key then
+          match rest with [] => existsb (fun f => String.eqb key ("msg." ++ f)) ids | _ => false end
+        else
+          match rest with
+          | (lk2, _) :: _ =>
+            match assoc lk2 lookup_info with
+            | Some (_, rt) => String.prefix (rt ++ ".") key && chain_ok ids rest
+            | None => false
+            end
+          | [] => false
+          end
+      | _ => false
+      end
+    end
+  end.
+
+Definition is_owner_field (c : owner_cmp) : bool :=
+  match assoc (oc_field c) owner_fields with Some _ => true | None => false end.
+
+(* the compared field is the owner field of the kind of record the first link fetches, and the chain is sound *)
+Definition owner_cmp_ok (ids : list string) (c : owner_cmp) : bool :=
+  match assoc (oc_field c) owner_fields, oc_chain c with
+  | Some k, (lk, _) :: _ =>
+    match assoc lk lookup_info with
+    | Some (k', rt) => String.eqb k k' && String.prefix (rt ++ ".") (oc_field c) && chain_ok ids (oc_chain c)
+    | None => false
+    end
+  | _, _ => false
+  end.
+
+Definition cmps_of (handler_name : string) : list owner_cmp :=
+  filter (fun c => String.eqb (oc_handler c) handler_name && is_owner_field c) owner_cmps.
+
+(* a position message that names an id: it has at least one owner comparison, and EVERY owner
+   comparison on its walk (helper rows included) is made on a record reached from one of the
+   message's own position-id fields *)
+Definition msg_position_ids (m : msg_type) : list string :=
+  filter (fun f => mem f position_id_fields) (mt_ids m).
+Definition owner_cmps_ok (ids : list string) (cs : list owner_cmp) : bool :=
+  match cs with [] => false | _ => forallb (owner_cmp_ok ids) cs end.
+Definition owner_prov_ok (m : msg_type) : bool :=
+  mem (mt_qname m) signer_keyed_msgs || owner_cmps_ok (msg_position_ids m) (cmps_of (mt_handler m)).
+
+Definition c12_owner_prov_check : bool := forallb owner_prov_ok position_msgs.
+
 (* closed world: every registered message of a DeFi module has a handler row and a signer field *)
 Definition defi_modules : list string :=
   ["vault"; "locker"; "lend"; "liquidity"; "auction"; "auctionsV2"; "liquidation"; "liquidationsV2"; "esm";
@@ -152,19 +241,24 @@ Definition c14_sweep_check : bool :=
            "auction.SurplusActivator"; "auction.DebtActivator"].
 
 (* price: every price call site a handler can reach, and every link of the call chain to it,
-   propagates the error.  Two handlers are excluded: the translator shows sites where the error is
-   assigned to _ (cross-pool branch of MsgLiquidateBorrow, UpdateLockedBorrows, CreteNewBorrow). *)
+   propagates the error.  A raw read of the oracle record that discards the found flag
+   (`x, _ := k.market.GetTwa(..)`) counts as a price call site whose error is ignored.  Three handlers
+   are excluded: the translator shows sites where the error is assigned to _ (cross-pool branch of
+   MsgLiquidateBorrow, UpdateLockedBorrows, CreteNewBorrow; the raw read in PlaceDutchAuctionBid). *)
 Definition price_modules : list string :=
   ["vault"; "locker"; "lend"; "liquidation"; "liquidationsV2"; "auction"; "auctionsV2"].
 Definition price_unverified : list (string * string) :=
   [("liquidation.MsgLiquidateBorrow",
     "cross-pool branches and UpdateLockedBorrows assign the price error to _ (msg_server.go:163,177; liquidate_borrow.go)");
    ("auction.MsgPlaceDutchLendBid",
-    "the close path reaches lend.CreteNewBorrow / liquidation.UpdateLockedBorrows which assign the price error to _")].
+    "the close path reaches lend.CreteNewBorrow / liquidation.UpdateLockedBorrows which assign the price error to _");
+   ("auctionsV2.MsgPlaceMarketBid",
+    "KNOWN FINDING C14-F1 (reproduced): PlaceDutchAuctionBid reads the debt asset's record with `debtToken, _ := GetTwa(..)`, discarding the found flag and never looking at IsPriceActive (bid.go:32)")].
 Definition price_scope : list handler :=
   filter (fun h => mem (h_module h) price_modules && negb (mem (h_name h) (map fst price_unverified))) handlers.
 Definition price_fail_closed (h : handler) : bool := price_all_checked h && no_unchecked_price (h_items h).
 Definition c14_price_check : bool := forallb price_fail_closed price_scope.
+Definition price_scope_names : list string := map h_name price_scope.
 Definition c14_price_unverified_really_unchecked : bool :=
   forallb (fun n => match find_handler n with Some h => negb (price_all_checked h) | None => false end)
           (map fst price_unverified).
@@ -230,16 +324,33 @@ Definition handler_owner_guarded (n : string) : bool :=
   existsb (fun m => String.eqb (mt_handler m) n && has_owner_guard m) msg_types.
 Definition position_handler_names : list string := map mt_handler position_msgs.
 
+(* the handlers whose regenerated row no longer passes a table check: when a table theorem breaks,
+   the directed search of bin/check concentrates the harness on these (runner entries C12-focus /
+   C14-focus print them, bin/props.d/C1x.py hands them to the harness as VERIF_FOCUS) *)
+Definition c12_broken_rows : list string :=
+  map mt_handler (filter (fun m => negb (has_owner_guard m) || negb (owner_prov_ok m)) position_msgs).
+Definition c14_broken_rows : list string :=
+  filter (fun n => negb (rejects_under_breaker n)) breaker_scope ++
+  map h_name (filter (fun h => negb (esm_guarded h)) esm_mint_scope) ++
+  (if c14_cooloff_check then [] else ["vault.MsgWithdraw"]) ++
+  map h_name (filter (fun h => negb (price_fail_closed h)) price_scope).
+
 (* property predicates, evaluated by the runner on the IMPLEMENTATION's observations *)
 (* C12 owners: a message naming a position id and signed by a non-owner must not succeed; a
    message acting on "the signer's own" records (no id) and signed by an account that owns none
    may return ok only as a no-op; a rejected message changes nothing *)
 Definition handler_signer_keyed (n : string) : bool :=
   existsb (fun m => String.eqb (mt_handler m) n && mem (mt_qname m) signer_keyed_msgs) msg_types.
-Definition holds_C12_owner (handler_name : string) (signer_is_owner ok changed : bool) : bool :=
+(* [signer_has_positions]: the signer is itself one of the position owners of the fixture (it owns
+   a position of every kind, with other ids); [victim_changed]: a balance or a position record of
+   the owner whose positions the message names changed.  A signer-keyed message of another position
+   owner acts on that signer's own records: it may succeed, but must leave the named owner's alone. *)
+Definition holds_C12_owner (handler_name : string) (signer_is_owner signer_has_positions ok changed victim_changed : bool) : bool :=
   (ok || negb changed) &&
   (signer_is_owner || negb (handler_position_msg handler_name) ||
-   (if handler_signer_keyed handler_name then negb ok || negb changed else negb ok)).
+   (if handler_signer_keyed handler_name
+    then negb ok || (if signer_has_positions then negb victim_changed else negb changed)
+    else negb ok)).
 
 (* C12 wasm: on a named network an accepted custom message comes from the designated contract *)
 Definition holds_C12_wasm (variant chain sender : string) (accepted changed : bool) : bool :=
@@ -264,9 +375,23 @@ Definition holds_C14 (n : string) (breaker : bool) (esm_phase : Z) (ok changed :
   (negb ((esm_phase =? 2)%Z && String.eqb n "vault.MsgWithdraw") || negb ok) &&
   (ok || negb changed).
 
-(* price: an operation that succeeds although some price is inactive must not have used it:
-   its outcome equals the outcome with every price active *)
-Definition holds_C14_price (some_inactive ok base_ok same_as_base changed : bool) : bool :=
-  (negb (some_inactive && ok && base_ok) || same_as_base) && (ok || negb changed).
+(* price.  [needed_inactive]: one of the inactive feeds is a price the operation NEEDS: it reads it
+   when it runs with every feed active and no control set (observed on the implementation: store
+   trace of the market store) and the outcome of that run changes when the value of the feed is
+   scaled (x1000, /1000) - then the operation must fail.  And an inactive feed never turns a refusal into a
+   success or changes what a successful operation does: a run that succeeds with some feed inactive
+   succeeds, with the same resulting state, when every feed is active. *)
+Definition holds_C14_price (some_inactive needed_inactive ok base_ok same_as_base changed : bool) : bool :=
+  negb (needed_inactive && ok) &&
+  (negb (some_inactive && ok) || (base_ok && same_as_base)) &&
+  (ok || negb changed).
+
+(* KNOWN FINDING C14-F1 (reproduced on the real code): auctionsV2 PlaceDutchAuctionBid reads the debt
+   asset's TimeWeightedAverage record directly and discards both the found flag and IsPriceActive
+   (x/auctionsV2/keeper/bid.go:32), so MsgPlaceMarketBid on an auction whose debt price comes from
+   the oracle succeeds, valued at the last recorded price, while that feed is inactive.  The class:
+   that handler, a needed feed inactive, success with the very outcome of the all-active run. *)
+Definition kf_C14_bid_stale_debt_price (n : string) (needed_inactive ok base_ok same_as_base : bool) : bool :=
+  String.eqb n "auctionsV2.MsgPlaceMarketBid" && needed_inactive && ok && base_ok && same_as_base.
 
 Definition holds_C14_sweep (breaker started : bool) : bool := negb (breaker && started).
